@@ -25,6 +25,66 @@ type EvalCtx struct {
 	noVars bool
 	nerr   *int
 	lastErr *string
+	pend   *[]pendingFork // conditional strong updates to be handled by forking (applyContract)
+}
+
+type pendingFork struct{ P, Q Expr }
+
+// stripFresh removes fresh(x) conjuncts from q, marking their objects as fresh.
+func (c *EvalCtx) stripFresh(q Expr) (Expr, bool) {
+	switch e := q.(type) {
+	case *ECall:
+		if e.Fun == "fresh" && len(e.Args) == 1 {
+			switch s := c.eval(e.Args[0]).(type) {
+			case SliceV:
+				if s.Obj != nil {
+					s.Obj.Fresh = true
+				}
+			case PtrV:
+				if s.Obj != nil {
+					s.Obj.Fresh = true
+				}
+			}
+			return nil, true
+		}
+	case *EBinary:
+		if e.Op == "&&" {
+			x, cx := c.stripFresh(e.X)
+			y, cy := c.stripFresh(e.Y)
+			if !cx && !cy {
+				return q, false
+			}
+			switch {
+			case x == nil:
+				return y, true
+			case y == nil:
+				return x, true
+			}
+			return &EBinary{"&&", x, y}, true
+		}
+	}
+	return q, false
+}
+
+// needsStrong: does assuming q involve a strong update (slice/pointer geometry)?
+func (c *EvalCtx) needsStrong(q Expr) bool {
+	b, ok := q.(*EBinary)
+	if !ok {
+		return false
+	}
+	switch b.Op {
+	case "&&":
+		return c.needsStrong(b.X) || c.needsStrong(b.Y)
+	case "==":
+		if l, ok := c.loc(b.X); ok && (l.Ptr != nil || l.Var != "") {
+			s := c.soft()
+			switch s.eval(b.Y).(type) {
+			case SliceV, PtrV, MapV:
+				return *s.nerr == 0
+			}
+		}
+	}
+	return false
 }
 
 func (c *EvalCtx) with(name string, v Value) *EvalCtx {
@@ -149,6 +209,13 @@ func (c *EvalCtx) lookupPkgObj(pkg *types.Package, name string) (Value, bool) {
 		return c.e.constValue(o.Type(), o.Val()), true
 	case *types.TypeName:
 		return TypeV{o.Type()}, true
+	case *types.Var:
+		// package-level variable: its current value
+		if sp := c.e.ssaPkgs[pkg.Path()]; sp != nil && c.st != nil {
+			if g := sp.Var(name); g != nil {
+				return c.e.loadPtr(c.st, c.e.globalPtr(g)), true
+			}
+		}
 	}
 	return nil, false
 }
@@ -237,7 +304,7 @@ func (c *EvalCtx) eval(x Expr) Value {
 			switch p := v.(type) {
 			case PtrV:
 				if p.Obj == nil {
-					return c.fail("dereference of nil pointer in %s", exprStr(x))
+					return c.e.zero(p.Elem)
 				}
 				return c.e.loadPtr(c.st, p)
 			case TypeV:
@@ -362,11 +429,23 @@ func (c *EvalCtx) eval(x Expr) Value {
 	return c.fail("cannot evaluate %s", exprStr(x))
 }
 
+func (c *EvalCtx) choice(ch ChoiceV, f func(Value) Value) Value {
+	a, b := f(ch.A), f(ch.B)
+	if m, ok := c.e.mergeValues(ch.Cond, a, b); ok {
+		return m
+	}
+	return ChoiceV{ch.Cond, a, b}
+}
+
 func (c *EvalCtx) field(v Value, name string, x Expr) Value {
+	if ch, ok := v.(ChoiceV); ok {
+		return c.choice(ch, func(a Value) Value { return c.field(a, name, x) })
+	}
 	switch s := v.(type) {
 	case PtrV:
 		if s.Obj == nil {
-			return c.fail("field of nil pointer in %s", exprStr(x))
+			// nil pointer: the access is meaningless (always guarded); any value will do
+			return c.field(c.e.zero(s.Elem), name, x)
 		}
 		return c.field(c.e.loadPtr(c.st, s), name, x)
 	case StructV:
@@ -399,6 +478,16 @@ func (c *EvalCtx) field(v Value, name string, x Expr) Value {
 }
 
 func (c *EvalCtx) index(v Value, ie Expr, x Expr) Value {
+	if ch, ok := v.(ChoiceV); ok {
+		return c.choice(ch, func(a Value) Value { return c.index(a, ie, x) })
+	}
+	if arr, ok := v.(*Term); ok && arr.Sort == SMapRI {
+		k := c.eval(ie)
+		if iv, isI := k.(IfaceV); isI {
+			return Select(arr, c.e.ifaceRef(iv))
+		}
+		return c.fail("refmap index must be an interface value")
+	}
 	switch s := v.(type) {
 	case StrV:
 		i := c.term(ie)
@@ -469,6 +558,20 @@ func (c *EvalCtx) binary(e *EBinary) Value {
 	case "==", "!=":
 		a, b := c.eval(e.X), c.eval(e.Y)
 		var eq *Term
+		if ch, ok := a.(ChoiceV); ok {
+			eq = c.choiceEq(ch, b)
+			if e.Op == "!=" {
+				return Not(eq)
+			}
+			return eq
+		}
+		if ch, ok := b.(ChoiceV); ok {
+			eq = c.choiceEq(ch, a)
+			if e.Op == "!=" {
+				return Not(eq)
+			}
+			return eq
+		}
 		switch {
 		case isNilV(a) || isNilV(b):
 			other := a
@@ -540,6 +643,22 @@ func (c *EvalCtx) binary(e *EBinary) Value {
 		}
 	}
 	return c.fail("unsupported operator %s", e.Op)
+}
+
+func (c *EvalCtx) choiceEq(ch ChoiceV, other Value) *Term {
+	one := func(a Value) *Term {
+		if inner, ok := a.(ChoiceV); ok {
+			return c.choiceEq(inner, other)
+		}
+		if isNilV(other) {
+			n, ok := c.nilTerm(a)
+			if ok {
+				return n
+			}
+		}
+		return c.e.valueEq(c.st, a, other)
+	}
+	return Ite(ch.Cond, one(ch.A), one(ch.B))
 }
 
 func (c *EvalCtx) lenOf(v Value) *Term {
@@ -788,8 +907,37 @@ func (c *EvalCtx) call(e *ECall) Value {
 		if !ok {
 			return c.fail("has: not a map")
 		}
-		_, present := c.e.mapGet(c.st, m, c.eval(arg(1)))
-		return present
+		if m.Obj == nil {
+			return TFalse
+		}
+		return And(Not(m.Nil), Select(c.e.mapContent(c.st, m).Dom, c.e.keyTerm(c.st, c.eval(arg(1)))))
+	case "upd":
+		arr := c.term(arg(0))
+		if arr.Sort == SMapRI {
+			if iv, isI := c.eval(arg(1)).(IfaceV); isI {
+				return Store(arr, c.e.ifaceRef(iv), c.term(arg(2)))
+			}
+		}
+		return c.fail("upd: unsupported map")
+	case "mapNil":
+		m, ok := c.eval(arg(0)).(MapV)
+		if !ok {
+			return c.fail("mapNil: not a map")
+		}
+		return c.e.mapValNil(c.st, m, c.eval(arg(1)))
+	case "sameExcept":
+		a, ok1 := c.eval(arg(0)).(MapV)
+		n := *c
+		n.st = c.old
+		n.noVars = true
+		if c.old == nil {
+			return c.fail("sameExcept needs an old state")
+		}
+		b, ok2 := n.eval(arg(0)).(MapV)
+		if !ok1 || !ok2 {
+			return c.fail("sameExcept: not maps")
+		}
+		return c.e.mapSameExcept(c.st, c.old, a, b, c.eval(arg(1)))
 	case "xor8":
 		r := App("tq_xor8", SInt, c.term(arg(0)), c.term(arg(1)))
 		r.Hi = big.NewInt(255)
@@ -1023,6 +1171,14 @@ func (c *EvalCtx) loc(x Expr) (Loc, bool) {
 func (c *EvalCtx) havoc(l Loc, hint string) {
 	switch {
 	case l.Ptr != nil:
+		if mv, isMap := c.e.loadPtr(c.st, *l.Ptr).(MapV); isMap && mv.Obj != nil {
+			// a map-typed location: the map's content changes, the reference stays
+			card := c.e.freshVar(hint+"_card", SInt)
+			c.st.assume(Le(Num(0), card))
+			c.st.assume(Le(card, NumB(maxLen)))
+			c.st.heap[mv.Obj] = MapC{KeySort: SInt, Dom: c.e.freshVar(hint+"_dom", SSet), Card: card, ValT: mv.T.Elem(), RestID: c.e.freshName(hint + "_rest")}
+			return
+		}
 		c.e.storePtr(c.st, *l.Ptr, c.e.fresh(c.st, l.Ptr.Elem, hint))
 	case l.Ghost != "":
 		c.st.ghost[l.Ghost] = c.e.freshGhost(c.st, l.Ghost)
@@ -1064,6 +1220,31 @@ func (c *EvalCtx) assume(x Expr) {
 	}
 	switch e := x.(type) {
 	case *ECall:
+		if e.Fun == "sameExcept" && len(e.Args) == 2 && c.old != nil {
+			m, ok := c.eval(e.Args[0]).(MapV)
+			n := *c
+			n.st = c.old
+			n.noVars = true
+			mo, ok2 := n.eval(e.Args[0]).(MapV)
+			if ok && ok2 && m.Obj != nil && m.Obj == mo.Obj {
+				oldC := c.e.mapContent(c.old, mo)
+				k := c.e.keyTerm(c.st, c.eval(e.Args[1]))
+				present := c.e.freshVar("present", SBool)
+				was := Select(oldC.Dom, k)
+				nc := oldC
+				var val Value
+				tmp := &State{}
+				val = c.e.fresh(tmp, oldC.ValT, "entry")
+				for _, f := range tmp.pc {
+					c.st.assume(f)
+				}
+				nc.Assoc = append(append([]MapEntry(nil), oldC.Assoc...), MapEntry{Key: k, Val: val})
+				nc.Dom = Store(oldC.Dom, k, present)
+				nc.Card = Add(oldC.Card, Sub(Ite(present, Num(1), Num(0)), Ite(was, Num(1), Num(0))))
+				c.st.heap[m.Obj] = nc
+				return
+			}
+		}
 		if e.Fun == "fresh" && len(e.Args) == 1 {
 			// assumed freshness of a callee result: the backing object is new to the caller
 			switch s := c.eval(e.Args[0]).(type) {
@@ -1082,6 +1263,28 @@ func (c *EvalCtx) assume(x Expr) {
 		if e.Op == "&&" {
 			c.assume(e.X)
 			c.assume(e.Y)
+			return
+		}
+		if e.Op == "==>" {
+			// freshness claims in the consequent: mark the objects (harmless when the
+			// antecedent is false) and assume the rest
+			if rest, changed := c.stripFresh(e.Y); changed {
+				if rest == nil {
+					return
+				}
+				c.assume(&EBinary{"==>", e.X, rest})
+				return
+			}
+		}
+		if e.Op == "==>" && c.pend != nil && c.needsStrong(e.Y) {
+			p := c.boolean(e.X)
+			switch {
+			case p.IsTrue():
+				c.assume(e.Y)
+			case p.IsFalse():
+			default:
+				*c.pend = append(*c.pend, pendingFork{e.X, e.Y})
+			}
 			return
 		}
 		if e.Op == "==" {
